@@ -297,3 +297,10 @@ def run(case):
         if outname:
             check_file(out, outname, (-base).astype(stored_dtype(base.dtype)), "invert_file")
     return out
+
+
+# rejected calls that run before every case (vlib/faults.py): nothing they leave behind - module state, library options,
+# stray files - may make the valid calls of the case violate the statement
+from vlib import faults as _faults  # noqa: E402
+
+fault_calls = _faults.for_property(ID)
